@@ -36,7 +36,7 @@ package planner
 //@   loop 1 invariant p.tbl == old(p.tbl) && p.stm == old(p.stm) && p.tbl.#lock_mu == 0 && p.tbl.#failed == old(p.tbl.#failed) && p.tbl.mbs != nil && bindingSet(p.tbl.mbs)
 //@   loop 2 invariant[frame] p.tbl == old(p.tbl) && p.stm == old(p.stm) && p.stm.projection == old(p.stm.projection) && p.stm.groupBy == old(p.stm.groupBy) && p.tbl.#lock_mu == 0 && p.tbl.#failed == old(p.tbl.#failed) && p.tbl.Data == old(p.tbl.Data) && 0 <= $i && $i <= len(p.stm.projection) && mapBindings != nil
 //@   loop 2 invariant[rows] forall j int, k int :: {p.tbl.Data[j], p.stm.projection[k]} 0 <= j && j < len(p.tbl.Data) && 0 <= k && k < len(p.stm.projection) ==> p.stm.projection[k] != nil && p.tbl.Data[j] != nil && has(p.tbl.Data[j], p.stm.projection[k].Binding) && wfCell(p.tbl.Data[j][p.stm.projection[k].Binding])
-//@   loop 2 invariant[accumulators] len(aaps) == $i && (forall k int :: {aaps[k]} 0 <= k && k < $i ==> accFor(aaps[k], p.stm.projection[k]))
+//@   loop 2 invariant[accumulators] len(aaps) == $i && (forall k int :: {aaps[k]} 0 <= k && k < $i ==> accFor(aaps[k], p.stm.projection[k]) && accOK(aaps[k].Acc))
 //@   loop 2 invariant[sort-keys] (forall c int :: {deref(addr(cfg))[c]} 0 <= c && c < len(deref(addr(cfg))) ==> !deref(addr(cfg))[c].Desc && (exists g int :: {p.stm.groupBy[g]} 0 <= g && g < len(p.stm.groupBy) && p.stm.groupBy[g] == deref(addr(cfg))[c].Binding) && (exists k int :: {p.stm.projection[k]} 0 <= k && k < $i && p.stm.projection[k].Binding == deref(addr(cfg))[c].Binding))
 //@   loop 2 invariant[a-key-once-seen] forall k int :: {p.stm.projection[k]} 0 <= k && k < $i && (exists g int :: {p.stm.groupBy[g]} 0 <= g && g < len(p.stm.groupBy) && p.stm.groupBy[g] == p.stm.projection[k].Binding) ==> len(deref(addr(cfg))) >= 1
 //@   loop 2 invariant[a-marked-key-is-a-sort-key] forall b string :: {has(mapBindings, b)} has(mapBindings, b) && mapBindings[b] ==> len(deref(addr(cfg))) >= 1
